@@ -30,6 +30,8 @@ names of the listed nodes / values / tensors, the authorities of the listed grap
 `{"m": "sort.heap", "ops": [["push", k] | ["pop"] ...], "init": [k..]}`: `heapq.heapify` / `heappush` / `heappop` on a list
 (`Model/Heap.lean`): the list after every operation, the popped keys, the heap invariant after every operation;
 `pops` = `runHeap`, `abs` = `runAbs` (the abstract priority queue of `C12_heap_extract_min`).
+`sort.full` with `"d392": true` runs the pass events on `passFD` / `passWD` (the pass after the proposed fix D392: only
+graph-likes whose order changed are re-extended) instead of `passF` / `passW`; the harness probes the real pass.
 `sort.sort` also returns `heap` = `sortHeap` (`Model/SortHeap.lean`, the loop on the binary heap);
 `{"m": "sort.heaptrace", "graph": G}`: per iteration of `while priority_queue:` the queue (as positions, in `heapq`'s list
 layout) before the `heappop` and the popped node; `final` = the queue when the loop ends. -/
@@ -234,7 +236,7 @@ def resolveOrders : FWorld → List (Nat × Option (List Nat)) → List (Nat × 
       ((g, ord) :: rr.1, okOrd && rr.2)
     else ((g, ord) :: rest.map (fun p => (p.1, p.2.getD [])), okOrd)
 
-def runFull (evs : List FEv) : List Json :=
+def runFull (fixD : Bool) (evs : List FEv) : List Json :=
   let rec go (w : FWorld) (ns vs gs : List Nat) : List FEv → List Json
     | [] => []
     | ev :: os =>
@@ -260,9 +262,10 @@ def runFull (evs : List FEv) : List Json :=
           (n.map Prod.fst) (v.map Prod.fst) (a.map Prod.fst) os
       | .pass roots ords =>
         let rs := resolveOrders w (roots.zip (ords ++ List.replicate roots.length none))
-        let r := passF w rs.1
+        -- `fixD`: the real pass was probed to restore only the graph-likes whose order changed (proposed fix D392)
+        let r := if fixD then passFD w rs.1 else passF w rs.1
         let gls := (graphLikes w.sw roots).getD []
-        let rw := passW w.sw rs.1 gls
+        let rw := if fixD then passWD w.sw rs.1 gls else passW w.sw rs.1 gls
         obj ([("out", foutJ r.out), ("trace", graphsJ r.trace), ("after", absJ r.world.sw),
           ("inv", toJson (r.world.sw.rw.sets.all LinkedSet.invOk)), ("gls", natsJ gls),
           ("order_ok", toJson rs.2), ("pass_hyp", toJson (passHypB w.sw rs.1)),
@@ -321,7 +324,10 @@ def handle : Handler := fun m j =>
   | "sort.full" => some do
       let evsJ ← getArr j "events"
       let evs ← evsJ.mapM parseFEv
-      return obj [("sorts", Json.arr (runFull evs).toArray)]
+      let fixD := match j.getObjValAs? Bool "d392" with
+        | .ok b => b
+        | .error _ => false
+      return obj [("sorts", Json.arr (runFull fixD evs).toArray)]
   | "sort.heap" => some do
       let init ← getNats j "init"
       let opsJ ← getArr j "ops"
